@@ -210,6 +210,10 @@ theorem good_applyConstraints {ns : List B} (v : B) {t : IR} (g : Good ns t) : G
   unfold applyConstraints
   exact Tree.All.modHead (f := applyConstraintsHead v) (fun h x => by rw [applyConstraintsHead_required]; exact x) t g
 
+theorem good_docTags {ns : List B} (m : FieldMeta) {t : IR} (g : Good ns t) : Good ns (docTags m t) := by
+  unfold docTags
+  exact Tree.All.modHead (f := docTagsHead m) (fun h x => x) t g
+
 /-! ## component names (K07c) -/
 
 theorem lemma_nameByteOK_iff (c : Char) : nameByteOK c = nameCharOK c := rfl
@@ -508,8 +512,8 @@ theorem gen_genFields_post (env : Env) :
     simp only [fieldName, r, fsch, req', dite_eq_ite] at ih1 ih2
     obtain ⟨hk1, hinv1, hg1⟩ := ih1 hinv
     have hp1 : GoodP (names env seen (gen env seen opn t st).2)
-        (PTree.set (parseJSONName m.json m.name) (applyConstraints m.validate (gen env seen opn t st).1) props) :=
-      PTree.All.set _ _ (good_applyConstraints _ hg1) _ (GoodP.mono (names_mono_keys hk1) hp)
+        (PTree.set (parseJSONName m.json m.name) (applyConstraints m.validate (docTags m (gen env seen opn t st).1)) props) :=
+      PTree.All.set _ _ (good_applyConstraints _ (good_docTags m hg1)) _ (GoodP.mono (names_mono_keys hk1) hp)
     have hr1 : (if (isFieldRequired env m t && !contains m.json (s "omitempty") && !req.contains (parseJSONName m.json m.name)) = true
         then req ++ [parseJSONName m.json m.name] else req).Nodup := by
       split
